@@ -117,13 +117,15 @@ Definition next_mode (m : mode_t) (p : bool) (t : tok) : mode_t * bool :=
       end
   end.
 
+Definition at_start (m : mode_t) : bool := match m with MStart => true | _ => false end.
+
 (* state after EMITTING token [t] *)
 Definition adv (c : fmt_config) (s : st) (t : tok) : st :=
   let k := tk t in
   let (m', p') := next_mode (mode s) (pe s) t in
   let hdr' :=
     match k with
-    | KSub => if Nat.eqb (depth s) 0 then Some (0, false) else hdr s
+    | KSub => if Nat.eqb (depth s) 0 && at_start (mode s) then Some (0, false) else hdr s
     | KLBrace => None
     | _ => match hdr s with Some (n, _) => Some (S n, kis k KIdent) | None => None end
     end in
@@ -137,7 +139,7 @@ Definition adv (c : fmt_config) (s : st) (t : tok) : st :=
     end in
   let depth' := match k with KLBrace => S (depth s) | KRBrace => pred (depth s) | _ => depth s end in
   let tblp' := match k with
-               | KTable => if Nat.eqb (depth s) 0 then true else tblp s
+               | KTable => if Nat.eqb (depth s) 0 && at_start (mode s) then true else tblp s
                | KLBrace => false
                | _ => tblp s end in
   let tbl' := match k with
@@ -146,9 +148,9 @@ Definition adv (c : fmt_config) (s : st) (t : tok) : st :=
               | _ => tbl s end in
   let rt' :=
     match rt s with
-    | RNo => if kis k KReturn && match mode s with MStart => true | _ => false end
+    | RNo => if kis k KReturn && at_start (mode s)
              then RWant (return_statement_parenthesis c && negb (fn s)) else RNo
-    | RWant w => if kis k KSemi then RNo else RBody w false (if kis k KLParen then 1 else 0)
+    | RWant w => if terminator k then RNo else RBody w false (if kis k KLParen then 1 else 0)
     | RBody w dr d =>
         if terminator k then RNo
         else if kis k KLParen then RBody w dr (S d)
@@ -157,8 +159,8 @@ Definition adv (c : fmt_config) (s : st) (t : tok) : st :=
     end in
   (* the token that ends a top-level declaration leaves the initial state *)
   if (kis k KRBrace && Nat.leb (depth s) 1) || (kis k KSemi && Nat.eqb (depth s) 0)
-  then St MStart false 0 false None false false KSemi RNo (dp s)
-  else St m' p' depth' fn' hdr' tblp' tbl' k rt' (dp s).
+  then St MStart false 0 false None false false KSemi RNo false
+  else St m' p' depth' fn' hdr' tblp' tbl' k rt' false.
 
 (* ---------------------------------------------------------------- one step *)
 Inductive patch := PNone | PSetDp | PClrDp | PRetOpen | PRetClose.
@@ -236,13 +238,12 @@ Definition emit (a : action) (cs : list com) (t : tok) : list item * list com :=
 
 Definition apply_patch (p : patch) (s : st) : st :=
   match p with
-  | PNone => s
+  | PNone | PClrDp => St (mode s) (pe s) (depth s) (fn s) (hdr s) (tblp s) (tbl s) (prev s) (rt s) false
   | PSetDp => St (mode s) (pe s) (depth s) (fn s) (hdr s) (tblp s) (tbl s) (prev s) (rt s) true
-  | PClrDp => St (mode s) (pe s) (depth s) (fn s) (hdr s) (tblp s) (tbl s) (prev s) (rt s) false
-  | PRetOpen => St (mode s) (pe s) (depth s) (fn s) (hdr s) (tblp s) (tbl s) (prev s) (RBody false true 0) (dp s)
+  | PRetOpen => St (mode s) (pe s) (depth s) (fn s) (hdr s) (tblp s) (tbl s) (prev s) (RBody false true 0) false
   | PRetClose =>
       let r := match rt s with RBody w _ _ => RBody w false 0 | x => x end in
-      St (mode s) (pe s) (depth s) (fn s) (hdr s) (tblp s) (tbl s) (prev s) r (dp s)
+      St (mode s) (pe s) (depth s) (fn s) (hdr s) (tblp s) (tbl s) (prev s) r false
   end.
 
 Definition step0 (c : fmt_config) (s : st) (cs : list com) (t : tok) (nk : option kind)
